@@ -48,7 +48,6 @@ ASSUMPTIONS = [
     "term weights are 1.0 per occurrence (no field/term boosts), so frequencies are integers >= 1; ReaderCorrector's score "
     "-(dist + 0.5/f) would let frequency dominate distance for f < 0.5 (boosted fields): not exercised",
     "no deleted documents (the lexicon of a segment keeps terms of deleted documents until merged; the statement speaks of the field's terms)",
-    "terms never contain U+0000 or U+10FFFF (the automaton walk appends U+0000 / takes chr(ord(c)+1))",
 ]
 SHARDS = {"quick": 4, "thorough": 16}
 BUDGET_S = {"quick": 80, "thorough": 800}
@@ -84,12 +83,12 @@ def e2_units(tier):
 
 FLOORS = {
     "quick": {"e1.units": e1_units("quick"), "e2.units": e2_units("quick"), "e1.pairs": 30 * 31 * 16 * 4,
-              "sampled.cases": 60, "tw.single.evals": 5000, "tw.multi.evals": 5000, "agree.evals": 4000,
+              "sampled.cases": 60, "spelling.cases": 20, "spelling.tw.evals": 600, "spelling.fuzzy.evals": 600, "tw.single.evals": 5000, "tw.multi.evals": 5000, "agree.evals": 4000,
               "fuzzy.evals": 1500, "suggest.evals": 1500, "popA.tw.single.evals": 1500, "popA.suggest.evals": 400,
               "suggest.order.pairs": 1000, "suggest.cut.evals": 200, "alphabet.multibyte.cases": 10,
               "reach.transposition-sensitive": 100, "reach.prefix>len": 300, "layout.multi.built": 20},
     "thorough": {"e1.units": e1_units("thorough"), "e2.units": e2_units("thorough"), "e1.pairs": 62 * 63 * 16 * 4,
-                 "sampled.cases": 500, "tw.single.evals": 100000, "tw.multi.evals": 100000, "agree.evals": 100000,
+                 "sampled.cases": 500, "spelling.cases": 200, "spelling.tw.evals": 6000, "spelling.fuzzy.evals": 6000, "tw.single.evals": 100000, "tw.multi.evals": 100000, "agree.evals": 100000,
                  "fuzzy.evals": 10000, "suggest.evals": 10000, "popA.tw.single.evals": 30000, "popA.suggest.evals": 3000,
                  "suggest.order.pairs": 10000, "suggest.cut.evals": 1000, "alphabet.multibyte.cases": 80,
                  "reach.transposition-sensitive": 1000, "reach.prefix>len": 3000, "layout.multi.built": 200},
@@ -215,6 +214,10 @@ class Built(object):
             f = fields.KEYWORD(stored=False)
         elif self.fieldkind == "text":
             f = fields.TEXT(analyzer=analysis.SpaceSeparatedTokenizer(), phrase=False)
+        elif self.fieldkind == "stem-spelling":
+            # morphological analyzer + spelling=True => whoosh keeps the unstemmed words in a separate field "spell_t"
+            ana = analysis.SpaceSeparatedTokenizer() | analysis.StemFilter(stemfn=c19_stem, cachesize=None)
+            f = fields.TEXT(analyzer=ana, phrase=False, spelling=True)
         else:
             f = fields.KEYWORD(stored=False, scorable=True)
         schema = fields.Schema(id=fields.ID(stored=True), t=f)
@@ -248,6 +251,11 @@ class Built(object):
     def describe(self):
         return {"segments": [["%s=%s" % (did, " ".join(ts)) for did, ts in part] for part in self.layout()],
                 "storage": self.storage, "field": self.fieldkind}
+
+
+def c19_stem(word):
+    """Harness-side 'stemmer' (picklable by reference): strips trailing 'b's. 'abb' -> 'a', 'b' -> 'b'."""
+    return word.rstrip("b") or word
 
 
 def build(ctx, docs, nseg, storage="ram", fieldkind="keyword"):
@@ -663,6 +671,7 @@ ALPHABETS = {
     "multibyte": "aéß日\U0001d11e",      # 1-, 2-, 2-, 3- and 4-byte UTF-8
     "ab-long": "ab",
     "wide": "abcdefghé日",
+    "edge": "a\x00\uffff\U0010ffff",       # lowest and highest code points (the automaton walk appends U+0000 / takes chr(ord(c)+1))
 }
 
 
@@ -683,7 +692,7 @@ def mutate(rng, w, alpha, n):
 
 
 def sampled_case(ctx, rng):
-    aname = rng.choice(["abc", "abc", "multibyte", "multibyte", "ab-long", "wide"])
+    aname = rng.choice(["abc", "abc", "multibyte", "multibyte", "ab-long", "wide", "edge"])
     alpha = ALPHABETS[aname]
     maxlen = 8 if aname == "ab-long" else 6
     bases = ["".join(rng.choice(alpha) for _ in range(rng.randint(2, maxlen))) for _ in range(rng.randint(1, 4))]
@@ -757,6 +766,123 @@ def sampled_case(ctx, rng):
             b.close()
 
 
+def _tw_sets(lexicon, w, d, p):
+    return expected_sets(lexicon, w, d, p)
+
+
+def spelling_case(ctx, rng):
+    """Population B: TEXT(spelling=True) with a morphological analyzer. The field's terms are the stems; whoosh
+    keeps the unstemmed words in the separate field spell_t. Strict oracle: terms_within('t')/FuzzyTerm('t') speak
+    about the terms of field t (the stems). Listed mechanism: SegmentReader.terms_within redirects to the spelling
+    field (pinned by tests/test_writing.py::test_add_reader_spelling) while the multi-segment path does not."""
+    alpha = rng.choice(["ab", "abc"])
+    words = set()
+    for _ in range(rng.randint(2, 14)):
+        words.add("".join(rng.choice(alpha) for _ in range(rng.randint(1, 5))))
+    words = sorted(words)
+    docs = []
+    occ = []
+    for t in words:
+        occ += [t] * rng.choice([1, 1, 2, 3])
+    rng.shuffle(occ)
+    i = 0
+    while i < len(occ):
+        k = rng.choice([1, 1, 2])
+        docs.append(("d%d" % len(docs), occ[i:i + k]))
+        i += k
+    layouts = [1] + ([2] if len(docs) > 1 else [])
+    bs = [build(ctx, docs, n, fieldkind="stem-spelling") for n in layouts]
+    ctx.count("spelling.cases")
+    stems_of = {did: sorted(set(c19_stem(t) for t in ts)) for did, ts in docs}
+    stem_lex = sorted(set(x for v in stems_of.values() for x in v))
+    try:
+        for _ in range(rng.randint(4, 7)):
+            w = rng.choice(words + stem_lex) if rng.random() < 0.3 else mutate(rng, rng.choice(words + stem_lex), alpha, rng.choice([1, 1, 2]))
+            nontrivial = False
+            for d in (0, 1, 2):
+                for p in (0, 1):
+                    f_lev, f_osa, f_dl = expected_sets(stem_lex, w, d, p)       # what the statement demands (terms of t)
+                    s_lev, s_osa, s_dl = expected_sets(words, w, d, p)          # the spelling field's words
+                    if f_osa and len(f_osa) < len(stem_lex):
+                        nontrivial = True
+                    for b in bs:
+                        single = b.nseg == 1
+                        wit = {"api": "reader.terms_within('t', word, maxdist, prefix) on TEXT(spelling=True, stemming analyzer)",
+                               "word": w, "maxdist": d, "prefix": p, "index": b.describe(), "terms_of_field_t": _small(stem_lex, 40),
+                               "words_of_spelling_field": _small(words, 40)}
+                        reader = b.searcher.reader()
+                        ok, got = ctx.guard("spellfield.terms_within", wit, lambda: set(reader.terms_within("t", w, d, prefix=p)))
+                        ctx.count("spelling.tw.evals")
+                        if ok and not (f_osa <= got <= f_dl):
+                            wit.update(expected=_small(f_osa, 30), observed=_small(got, 30), spelling_words_within=_small(s_lev, 30))
+                            if single and got == s_lev:
+                                wit["observed_by"] = "terms_within.single"
+                                ctx.fail("spellfield", "known:segment-terms_within-reads-spelling-field", wit,
+                                         "single-segment terms_within('t') == words of spell_t within (plain Levenshtein) distance")
+                            elif single and got == f_lev:
+                                wit["observed_by"] = "terms_within.single(spelling field == field)"
+                                ctx.fail("transposition", "known:automaton-no-transposition", wit)
+                            else:
+                                ctx.fail("spellfield.terms_within", "%s:%s" % ("single" if single else "multi",
+                                         "missing" if f_osa - got else "extra"), wit)
+                        # FuzzyTerm: documents containing a term of t within distance
+                        from whoosh import query
+                        wit2 = {"api": "search(FuzzyTerm('t', word, maxdist, prefixlength)) on TEXT(spelling=True, stemming analyzer)",
+                                "word": w, "maxdist": d, "prefixlength": p, "index": b.describe(), "terms_of_field_t": _small(stem_lex, 40)}
+                        q = query.FuzzyTerm("t", w, maxdist=d, prefixlength=p)
+                        ok, docs_got = ctx.guard("spellfield.fuzzy", wit2, lambda: sorted(h["id"] for h in b.searcher.search(q, limit=None)))
+                        ctx.count("spelling.fuzzy.evals")
+                        if not ok:
+                            continue
+                        lo = sorted(did for did, st in stems_of.items() if any(x in f_osa for x in st))
+                        hi = sorted(did for did, st in stems_of.items() if any(x in f_dl for x in st))
+                        if set(lo) <= set(docs_got) <= set(hi):
+                            if lo:
+                                ctx.count("spelling.fuzzy.nonempty-agree")
+                            continue
+                        # second oracle: per segment, the automaton walked that segment's spell_t words (plain Levenshtein) and
+                        # the resulting words were looked up as terms of t
+                        second = []
+                        for part in b.layout():
+                            seg_words = set(t for _, ts in part for t in ts)
+                            hit = expected_sets(sorted(seg_words), w, d, p)[0]
+                            second += [did for did, _ in part if any(x in hit for x in stems_of[did])]
+                        wit2.update(expected_docs=lo[:40], observed_docs=docs_got[:40], expected_terms=_small(f_osa, 30))
+                        if docs_got == sorted(second):
+                            wit2["observed_by"] = "fuzzy.docs"
+                            ctx.fail("spellfield", "known:segment-terms_within-reads-spelling-field", wit2,
+                                     "FuzzyTerm expanded to the unstemmed spelling words, which were then looked up in the stemmed field")
+                        else:
+                            ctx.fail("spellfield.fuzzy", "missing" if set(lo) - set(docs_got) else "extra", wit2)
+                    # suggestions come from the spelling field: existing words, within distance, never the word itself
+                    for b in bs:
+                        single = b.nseg == 1
+                        wit3 = {"api": "searcher.suggest('t', word, limit=100, maxdist, prefix) on TEXT(spelling=True, stemming analyzer)",
+                                "word": w, "maxdist": d, "prefix": p, "index": b.describe(), "words_of_spelling_field": _small(words, 40)}
+                        ok, sug = ctx.guard("spellfield.suggest", wit3, lambda: list(b.searcher.suggest("t", w, limit=100, maxdist=d, prefix=p)))
+                        ctx.count("spelling.suggest.evals")
+                        if not ok:
+                            continue
+                        wit3["observed"] = sug[:30]
+                        lo_s, hi_s = (s_lev, s_lev) if single else (s_osa, s_dl)
+                        body = [x for x in sug if x != w]
+                        ds = [dists(x, w)[0 if single else 1] for x in body]
+                        if not (lo_s - {w} <= set(body) <= hi_s) or len(set(sug)) != len(sug):
+                            ctx.fail("spellfield.suggest", "%s:set" % ("single" if single else "multi"), dict(wit3, expected=_small(lo_s - {w}, 30)))
+                        elif ds != sorted(ds) and not any(dists(x, w)[1] != dists(x, w)[2] for x in body):
+                            ctx.fail("spellfield.suggest", "%s:not-by-distance" % ("single" if single else "multi"), dict(wit3, distances=ds))
+                        elif single and s_lev != s_osa and set(body) != s_osa - {w}:
+                            wit3["observed_by"] = "suggest(spelling field)"
+                            ctx.fail("transposition", "known:automaton-no-transposition", dict(wit3, expected=_small(s_osa - {w}, 30)))
+                        if w in sug:
+                            wit3["observed_by"] = "suggest(spelling field)"
+                            ctx.fail("suggest.self", "known:suggest-includes-queried-word", wit3)
+            ctx.case(("SP", alpha, tuple(b.nseg for b in bs), len(w), w in words, w in stem_lex, _bucket(len(words), -1)), nontrivial)
+    finally:
+        for b in bs:
+            b.close()
+
+
 def run(ctx):
     tier = ctx.tier
     n1 = e1_units(tier)
@@ -773,6 +899,8 @@ def run(ctx):
                 unit_e1(ctx, tier, idx)
             elif idx < n1 + n2:
                 unit_e2(ctx, tier, idx - n1)
+            elif idx % 8 == 3:
+                spelling_case(ctx, ctx.rng(idx))
             else:
                 sampled_case(ctx, ctx.rng(idx))
     finally:
